@@ -2084,3 +2084,58 @@ def rf171(run):
                           line=x['l'])
     run.control(rule, 'the writes of load_bss_data_section found', n >= 2)
     return n
+
+
+# ---------------------------------------------------------------------------------------------
+# RF188: a second load looks at every item again
+# ---------------------------------------------------------------------------------------------
+
+def rf188(run):
+    rule = 'RF188'
+    run.rule(rule, 'MIR_load_module may be applied to a loaded module: it re-initialises the data.  load_bss_data_section, called for a section '
+                   'whose items already have addresses, places *one* item per call — the loop over the items of MIR_load_module is what '
+                   'reaches the others.  No `continue` / `break` of that loop is guarded by what an earlier load left in the item (`addr`, '
+                   '`section_head_p`): skipping "already placed" members leaves anonymous data, strings and bss of a section with whatever '
+                   'the program wrote there')
+    tu = run.tu('mir')
+    f = tu.func('MIR_load_module')
+    cfg = f.cfg
+    run.functions_analysed.add(('mir', f.name))
+    loops = [l for l in f.walk() if l['k'] == 'ForStmt' and any(y['k'] == 'CallExpr' and y.get('callee') == 'load_bss_data_section' for y in F.walk(l))]
+    if not loops:
+        raise F.AnalysisBroken('MIR_load_module: the loop over the items was not found')
+    lp = loops[0]
+    n = 0
+    bad = []
+    for x in F.walk(lp['c'][3]):
+        if x['k'] not in ('ContinueStmt', 'BreakStmt'):
+            continue
+        # only jumps of this loop (not of an inner loop / switch)
+        p_ = f.parent_of(x)
+        inner = False
+        while p_ is not None and p_ is not lp:
+            if p_['k'] in ('ForStmt', 'WhileStmt', 'DoStmt') or (p_['k'] == 'SwitchStmt' and x['k'] == 'BreakStmt'):
+                inner = True
+                break
+            p_ = f.parent_of(p_)
+        if inner:
+            continue
+        n += 1
+        b = cfg.block_of(x)
+        conds = dominating_conditions(cfg, b) if b is not None else []
+        # guards found syntactically as well (a jump statement has no CFG element of its own)
+        g_ = []
+        p_ = f.parent_of(x)
+        while p_ is not None and p_ is not lp:
+            if p_['k'] == 'IfStmt':
+                g_.append(F.src(p_['c'][0]))
+            p_ = f.parent_of(p_)
+        txt = ' '.join([c for c, t in conds] + g_)
+        if '->addr' in txt or 'section_head_p' in txt:
+            bad.append((x, txt))
+    run.ob(rule, ('loop',), not bad, {'jumps out of an iteration': n, 'guarded by the state of an earlier load': len(bad)})
+    for x, txt in bad:
+        run.violation(rule, f, 'item skipped on a second load', 'MIR_load_module skips an item (line %d) under `%s`: when the module is loaded again the '
+                      'members of a section already have addresses, load_bss_data_section re-initialises only the item it is called for, and '
+                      'the skipped members keep the bytes the program left in them' % (x['l'], txt[:70]), line=x['l'])
+    return 1
